@@ -175,7 +175,8 @@ def axiom_audit(prop_id, module, names):
     os.makedirs(WORK, exist_ok=True)
     f = os.path.join(WORK, "Audit_%s.lean" % prop_id)
     with open(f, "w") as fh:
-        fh.write("import %s\n" % module)
+        for m in ([module] if isinstance(module, str) else module):
+            fh.write("import %s\n" % m)
         for n in names:
             fh.write("#print axioms %s\n" % n)
     rc, out = sh(["lake", "env", "lean", f], cwd=LEAN, timeout=1800)
@@ -377,7 +378,9 @@ def run_check(P, tier, seed, replay=None):
         tie_broken.append("extract_consts failed: " + out[-2000:])
     # S1
     module = "FluentProofs.Props.%s" % pid
-    ok_proof, out = lake_build([module])
+    # further theorem modules audited with this property (e.g. composition theorems that import it)
+    extra_modules = list(getattr(P, "EXTRA_MODULES", []))
+    ok_proof, out = lake_build([module] + extra_modules)
     if not ok_proof:
         errs = re.findall(r"error: ([^\n]*)", out)
         proof_broken.append("lake build %s failed: %s" % (module, "; ".join(errs[:8])))
@@ -387,17 +390,19 @@ def run_check(P, tier, seed, replay=None):
         tie_broken.append("model driver does not build: " + "; ".join(errs[:8]))
     # S2
     names = theorem_names(os.path.join(LEAN, "FluentProofs", "Props", "%s.lean" % pid))
+    for em in extra_modules:
+        names += theorem_names(os.path.join(LEAN, *em.split(".")) + ".lean")
     lemma_count = 0
     for lm in getattr(P, "LEMMA_FILES", []):
         lemma_count += len(theorem_names(os.path.join(LEAN, lm)))
     area_main = "Main." + P.AREA[0].upper() + P.AREA[1:]
-    bad_src, audited = source_audit([module, area_main])
+    bad_src, audited = source_audit([module, area_main] + extra_modules)
     if bad_src:
         proof_broken.append("forbidden construct in Lean sources: " + "; ".join(bad_src[:10]))
     discharged = 0
     axioms = {}
     if ok_proof:
-        ok_a, axioms, aout = axiom_audit(pid, module, names)
+        ok_a, axioms, aout = axiom_audit(pid, [module] + extra_modules, names)
         for n in names:
             if n in axioms and set(axioms[n]) <= ALLOWED_AXIOMS:
                 discharged += 1
